@@ -197,13 +197,19 @@ def replay_chunk(args):
                         e2.append(f"{what}: % LOC of {sorted(k)} is {pct}")
                 return e2
 
+            # quick tier: the scenarios of the exhaustive profile go through the main views only (the -L / zero-platform
+            # variants are exercised by the sampled profile)
+            light = bool(sc.get("light"))
             errs += summary_check(toml, rep, "summary")
-            errs += summary_check(toml0, sc["rep0"], "summary(0 platforms)")
+            if not light:
+                errs += summary_check(toml0, sc["rep0"], "summary(0 platforms)")
             for argv, tree, lv, what in ((["analysis.toml"], rep["tree"], None, "tree"),
                                          (["--prune", "analysis.toml"], rep["ptree"], None, "tree --prune"),
                                          (["-L", "1", "analysis.toml"], rep["tree"], 1, "tree -L 1"),
                                          (["-L", "2", "--prune", "analysis.toml"], rep["ptree"], 2, "tree -L 2 --prune"),
                                          (["none.toml"], sc["rep0"]["tree"], None, "tree(0 platforms)")):
+                if light and what not in ("tree", "tree --prune"):
+                    continue
                 argv = [os.path.join(base, a) if a.endswith(".toml") else a for a in argv]
                 rc, out, err = cli("codebasin.tree", argv, m.root)
                 stats["evals"] += 1
@@ -281,11 +287,32 @@ def run(ctx):
     cases = C04.dedup(cases)
     if not cases:
         raise core.MachineryError("no scenarios")
+    # exhaustive small profile: M (the report laws and exclusion additivity on EVERY scenario) and G (every scenario
+    # through the three front ends)
+    p = os.path.join(core.OUT, f"GenScen_c06sM_{os.getpid()}.cfg")
+    open(p, "w").write(cfg.format(profile="c06s", shard=1, nshards=1) +
+                       "INVARIANT ReportLaws\nINVARIANT RefTotal\nINVARIANT ExclusionAdditive\nINVARIANT OrderIndependent\n")
+    try:
+        r = core.tlc("GenScen", p, workers=runner.NCPU, timeout=900, tag="C06sM", heap="4g")
+    finally:
+        os.unlink(p)
+    ctx.add_tlc("GenScen c06s ReportLaws / ExclusionAdditive (every scenario)", r)
+    if r.violation:
+        ctx.model_violation("GenScen_c06s", r)
+    small = runner.sharded_tlc(ctx, "GenScen", cfg.format(profile="c06s", shard="@SHARD@", nshards="@NSHARDS@"), 8,
+                               "GenScen_c06s", timeout=900)
+    small = C04.dedup(small)
+    ctx.cov["scenarios_exhaustive_c06s"] = len(small)
+    if q:
+        for sc in small:
+            sc["light"] = True
+    cases = small + cases
     ctx.cov["rule"] = (
         "TLC-simulated GenScen scenarios of profile c06 (5 header slots in src/, inc/, sys/include/, build/ and outside "
         "the root; 5 body kinds; 2 mains of <= 3 statements; 3 translation units over 1..3 platforms) with the expected "
         "summary table, tree rows (unpruned and pruned), coverage partition computed by Reports.tla, plus the zero-platform "
-        "analysis of the same tree; each is run through `codebasin -R summary`, cbi-tree (plain, --prune, -L 1, -L 2 "
+        "analysis of the same tree, and EVERY scenario of profile c06s (h.h beside the mains and in the -I directory with a body that "
+        "depends on X, two mains including it in either form, two commands over one or two platforms with X defined or not); each is run through `codebasin -R summary`, cbi-tree (plain, --prune, -L 1, -L 2 "
         "--prune), cbi-cov compute per platform and get_setmap, with symlinks to a member file at the root and in a "
         "subdirectory. evaluations = CLI / API runs compared; non-trivial = more than one platform set occurs")
     ctx.cov["scenarios"] = len(cases)
